@@ -352,8 +352,8 @@ where
     fn is_claimed(&self, c: usize) -> bool {
         shared_carrier!(self.s, c, 'a, g_is_claimed())
     }
-    fn typed(&mut self, _c: usize, _req: &TypedReq) -> TypedRes {
-        TypedRes::Unsupported
+    fn typed(&mut self, c: usize, req: &TypedReq) -> TypedRes {
+        if const { S::DEALLOCATES == S::SHRINKS } { typed::shared_typed(self.s, c, req) } else { TypedRes::Unsupported }
     }
     fn claim_again(&self) {
         let _g = self.s.claim();
